@@ -11,3 +11,10 @@ import (
 // VerifSetScheduler installs the verification harness' scheduler callback behind the yield hooks
 // (build tag `verif` only). Passing nil removes it.
 func VerifSetScheduler(f func(ctx context.Context, point string)) { verifhook.Set(f) }
+
+// VerifSetDeleteRangeParallelThreshold lowers (or restores) the range size from which DeleteRange takes the
+// parallel path, so that the harness reaches it with short chains. Returns the previous value.
+func VerifSetDeleteRangeParallelThreshold(n uint64) (old uint64) {
+	old, deleteRangeParallelThreshold = deleteRangeParallelThreshold, n
+	return old
+}
